@@ -56,6 +56,14 @@ type s1RawPeer struct {
 	mu       sync.Mutex
 	received [][]byte // wire blocks received intact from the connection (ACKed)
 	lineLog  []string
+	// bad: transmissions of the connection that failed the peer's own E4 check (length, checksum) and were NAKed
+	bad [][]byte
+	// garbage > 0 (master peer only): the next ENQ of the connection is answered with a contending ENQ; after the
+	// connection yields (EOT) the peer sends a transmission the connection must refuse and drain — an illegal length
+	// byte followed by more bytes, or a bad-checksum block with trailing bytes — and waits for the NAK. The
+	// connection then retries its OWN block, which must still be the well-formed block of its message (after seeded
+	// change C17d-2: retry bytes kept in a scratch buffer the drain overwrote).
+	garbage int
 }
 
 func newS1RawPeer(conn net.Conn, master bool) *s1RawPeer {
@@ -127,6 +135,9 @@ func (p *s1RawPeer) grantAndReceive() ([]byte, bool) {
 	}
 	if !good {
 		p.logf("peer: bad block from connection %x", w)
+		p.mu.Lock()
+		p.bad = append(p.bad, append([]byte(nil), w...))
+		p.mu.Unlock()
 		_ = p.write(0x15)
 		return w, false
 	}
@@ -202,7 +213,43 @@ func (p *s1RawPeer) serveUntil(stop func() bool, d time.Duration) {
 			continue
 		}
 		if b == 0x05 {
+			if p.master && p.garbage > 0 {
+				p.garbage--
+				p.contendWithGarbage()
+				continue
+			}
 			p.grantAndReceive()
+		}
+	}
+}
+
+// contendWithGarbage: see the field `garbage`.
+func (p *s1RawPeer) contendWithGarbage() {
+	if p.write(0x05) != nil {
+		return
+	}
+	// the connection (slave) must yield with EOT
+	deadline := time.Now().Add(p.t2)
+	for time.Now().Before(deadline) {
+		b, ok := p.readByte(time.Until(deadline))
+		if !ok {
+			p.logf("peer: contention: the connection did not yield")
+			return
+		}
+		if b == 0x04 {
+			break
+		}
+	}
+	junk := append([]byte{0xFF}, bytes.Repeat([]byte{0xEE}, 40)...) // illegal length byte, then more bytes to drain
+	if p.garbage%2 == 1 {
+		junk = append([]byte{0x0A, 1, 2, 3, 4, 5, 6, 7, 8, 9, 10, 0xDE, 0xAD}, bytes.Repeat([]byte{0xEE}, 30)...) // bad checksum + trailing bytes
+	}
+	_ = p.write(junk...)
+	for {
+		b, ok := p.readByte(p.t2)
+		if !ok || b == 0x15 || b == 0x06 {
+			p.logf("peer: contention garbage answered %02x", b)
+			return
 		}
 	}
 }
@@ -394,6 +441,11 @@ func c17PeerOutbound(c *Ctx, e *s1Endpoint, tag string) {
 			rep, err := e.conn.SendDataMessage(ctx, stream, fn, wbit, it)
 			resCh <- sendRes{rep, err}
 		}()
+		if e.peer.master && i%3 == 1 {
+			e.peer.mu.Lock()
+			e.peer.garbage = 1 + i%2
+			e.peer.mu.Unlock()
+		}
 		// receive blocks until the E-bit
 		var wires [][]byte
 		done := func() bool {
@@ -405,6 +457,13 @@ func c17PeerOutbound(c *Ctx, e *s1Endpoint, tag string) {
 		c.Count(fmt.Sprintf("peer-out|%s|%d|%v", tag, n, wbit), true)
 		c.Stat("peer-out:" + tag)
 		c.StatN("peer-out-blocks", len(wires))
+		e.peer.mu.Lock()
+		badTx := e.peer.bad
+		e.peer.bad = nil
+		e.peer.mu.Unlock()
+		if len(badTx) > 0 {
+			c.Violate("property", "peer-block-malformed", fmt.Sprintf("the connection transmitted %d block(s) failing the E4 length / checksum check, first %x", len(badTx), badTx[0][:min(24, len(badTx[0]))]), replay)
+		}
 		if len(wires) == 0 {
 			c.Violate("property", "peer-no-blocks", "the connection put no complete message on the line", replay)
 			return
